@@ -75,7 +75,7 @@ func Run(c *ev.Ctx) {
 	phases := []phase{
 		{"full-d1", nil, []string{"empty", "catalog+session", "mesh", "acl+ca", "peering+intentions", "legacy-intentions"}, 1},
 		{"catalog-kv-session-txn", []string{"catalog", "kv", "session", "txn", "prepared-query"}, []string{"empty", "catalog+session"}, 2},
-		{"config-catalog", []string{"config-entry", "catalog", "misc", "intention"}, []string{"mesh", "legacy-intentions"}, 2},
+		{"config-catalog", []string{"config-entry", "catalog", "misc", "intention"}, []string{"mesh", "mesh+mutual-chains", "legacy-intentions"}, 2},
 		{"acl-ca-misc", []string{"acl", "ca", "misc"}, []string{"empty", "acl+ca"}, 2},
 		{"peering-resource-intention", []string{"peering", "resource", "intention"}, []string{"empty", "peering+intentions"}, 2},
 	}
